@@ -37,7 +37,7 @@ static long readn(OggVorbis_File *vf,float **out,int maxch,long n,int *lk,int st
 int main(int argc,char **argv){
   FILE *f=fopen(argv[1],"r"); char *line;
   if(!f)return 2;
-  signal(SIGALRM,on_alarm);
+  vc_watch_init(on_alarm);
   static float bufA[MAXCH][MAXK],bufB[MAXCH][MAXK],bufO[MAXCH][MAXK]; float *pA[MAXCH],*pB[MAXCH],*pO[MAXCH];
   for(int c=0;c<MAXCH;c++){ pA[c]=bufA[c]; pB[c]=bufB[c]; pO[c]=bufO[c]; }
   while((line=vc_getline(f))){
@@ -45,7 +45,7 @@ int main(int argc,char **argv){
     char *t=strtok(line," "); if(!t||strcmp(t,"case")){ free(line); continue; }
     strcpy(id,strtok(NULL," ")); seed=atol(strtok(NULL," ")); hs=atoi(strtok(NULL," ")); hex=strtok(NULL," ");
     long n; unsigned char *file=vc_unhex(hex,&n); (void)seed;
-    printf("case %s\n",id); alarm(120);
+    printf("case %s\n",id); vc_watch(120);
     H A,B,C; int bad=0;
     /* A's complete call history, replayed on a fresh handle to obtain "what A would have read next" */
     static struct { char kind[8]; long pre,preread,k; double target; } hist[512]; int nh=0;
@@ -149,7 +149,7 @@ int main(int argc,char **argv){
     }
     printf("S tests=%ld lapped=%ld formula=%ld eofs=%ld total=%ld\n",tests,lapped,formula,eofs,total);
     if(!bad)printf("prop lap ok\n");
-    free(ops); ov_clear(&A.vf); ov_clear(&B.vf); ov_clear(&C.vf); alarm(0);
+    free(ops); ov_clear(&A.vf); ov_clear(&B.vf); ov_clear(&C.vf); vc_watch(0);
     free(file); free(line);
   }
   return 0;
